@@ -112,8 +112,131 @@ def process(tier, rng, cicada):
 
     global SCEN
     SCEN = proc.pmap(one, scen)
+    # generated scripts with functions / source chains / exit / set -e / failing commands at every position (stream `ssess`)
+    scases = gen_sessions(rng.fork("c15-ssess"), 150 if tier == "quick" else 3000)
+    simpl = dict(proc.pmap(lambda c: (c.id, run_session(cicada, sb, c)), scases))
     sb.cleanup()
-    return []
+    return [("s", scases, simpl)]
+
+
+FNAMES = ["f1", "g-2", "h_3", "k4"]
+
+
+def gen_sessions(r, n):
+    """a main script s.sh, a source chain a.sh -> b.sh -> c.sh of random depth, 0..4 functions defined in random files, calling only
+    lower-numbered functions (no recursion); `set -e`, `exit N` and failing commands at random positions"""
+    cases = []
+    for idx in range(n):
+        depth = r.below(4)                       # number of sourced files
+        fnames = ["s.sh", "a.sh", "b.sh", "c.sh"][:depth + 1]
+        nf = r.below(5)
+        where = [r.below(depth + 1) for _ in range(nf)]     # file each function is defined in
+        marker = [0]
+
+        def stage():
+            marker[0] += 1
+            st = 0 if r.below(3) else r.choice([1, 2, 3, 7, 255])
+            return ("g", marker[0], st)
+
+        def body_stmts(fi, maxn):
+            out = []
+            for _ in range(1 + r.below(maxn)):
+                k = r.below(10)
+                if k < 6:
+                    out.append(stage())
+                elif k < 8 and fi > 0:
+                    out.append(("c", FNAMES[r.below(fi)]))
+                elif k == 8 and r.below(3) == 0:
+                    out.append(("x", r.choice([0, 1, 5, 42, 255])))
+                else:
+                    out.append(stage())
+            return out
+        files = {}
+        for d, fn in enumerate(fnames):
+            stmts = []
+            nst = 1 + r.below(5)
+            src_at = r.below(nst + 1) if d < depth else -1
+            for j in range(nst + 1):
+                if j == src_at:
+                    stmts.append(("s", fnames[d + 1]))
+                if j == nst:
+                    break
+                k = r.below(12)
+                if k < 5:
+                    stmts.append(stage())
+                elif k < 8 and nf > 0:
+                    stmts.append(("c", FNAMES[r.below(nf)]))
+                elif k == 8:
+                    stmts.append(("e",))
+                elif k == 9 and r.below(3) == 0:
+                    stmts.append(("x", r.choice([0, 1, 5, 42, 255])))
+                else:
+                    stmts.append(stage())
+            # function definitions of this file, each at a random place (definitions are registered when the file is loaded)
+            for fi in range(nf):
+                if where[fi] == d:
+                    stmts.insert(r.below(len(stmts) + 1), ("d", FNAMES[fi], r.below(2), body_stmts(fi, 3)))
+            files[fn] = stmts
+        # a function is only callable once the file defining it was loaded: drop calls that could come too early
+        # (keep it simple: calls are allowed everywhere, an undefined function is `command not found` = status 127 in model and shell alike)
+        cases.append(mk_session(files, "s.sh", idx))
+    return cases
+
+
+def enc_simple(st, sep):
+    if st[0] == "g":
+        return sep.join(["g", str(st[1]), str(st[2])])
+    if st[0] in ("c", "s"):
+        return st[0] + sep + hx(st[1])
+    if st[0] == "x":
+        return "x" + sep + str(st[1])
+    return "e"
+
+
+def mk_session(files, main, idx):
+    enc = []
+    for fn, stmts in files.items():
+        parts = []
+        for st in stmts:
+            if st[0] == "d":
+                parts.append("d." + hx(st[1]) + "." + "+".join(enc_simple(b, ",") for b in st[3]))
+            else:
+                parts.append(enc_simple(st, "."))
+        enc.append(hx(fn) + "=" + ";".join(parts))
+    c = Case("ssess", ["|".join(enc), hx(main)], {"gen": "q", "files": files})
+    c.id = "s%d" % idx
+    return c
+
+
+def render_stmt(st, indent=""):
+    if st[0] == "g":
+        return ["%sstage %d %d" % (indent, st[1], st[2])]
+    if st[0] == "c":
+        return ["%s%s" % (indent, st[1])]
+    if st[0] == "s":
+        return ["%ssource %s" % (indent, st[1])]
+    if st[0] == "x":
+        return ["%sexit %d" % (indent, st[1])]
+    if st[0] == "e":
+        return ["%sset -e" % indent]
+    head = "function %s() {" % st[1] if st[2] == 0 else "function %s {" % st[1]
+    return [head] + [l for b in st[3] for l in render_stmt(b, "    ")] + ["}"]
+
+
+def run_session(cicada, sb, c):
+    d = os.path.join(sb.dir, c.id)
+    os.makedirs(d)
+    for fn, stmts in c.meta["files"].items():
+        open(os.path.join(d, fn), "w").write("\n".join(l for st in stmts for l in render_stmt(st)) + "\n")
+    slog = os.path.join(d, "stage.log")
+    try:
+        p = subprocess.run([cicada, "s.sh"], cwd=d, env=sb.env({"STAGE_LOG": slog}), stdin=subprocess.DEVNULL,
+                           stdout=subprocess.PIPE, stderr=subprocess.PIPE, timeout=30)
+        rc = p.returncode
+    except subprocess.TimeoutExpired:
+        return "HANG"
+    tr = [x for x in open(slog).read().split("\n") if x] if os.path.exists(slog) else []
+    return "rc=%d|trace=%s" % (rc, ",".join(tr))
 
 
 def post(rep):
